@@ -65,6 +65,55 @@ META["C04"] = dict(
     abstracted=["token start/end positions and text values (only kinds are tracked)", "exception message f-strings"],
 )
 
+META["C07"] = dict(
+    level="proof",
+    technique="contract-based verification of the real matrix builders and result writers: the functions of least_squares.py / matrix_inversion.py / utility.py and the real element impedances are executed by CPython on symbolic values (operator overloading, concrete control flow enumerated over all 36 variants); linearity, consistency and recovery lemmas discharged by an exact ring normaliser and z3; numeric recovery as labelled bounded stand-in",
+    level_text="For each of the 36 linear variants (lstsq/inversion x complex/real/imaginary x Z/Y x optional C/L columns), for all omega>0, time constants and variables: (O1) rows of the real A-matrix times x equal the real/imaginary part of the model built by the real _generate_circuit/_update_circuit from the real element impedances; (O2) for the model's own spectrum every linear system given to lstsq/pinv/inv is solved exactly by the generating variables; (O3) with that solution returned, _test_wrapper returns the generating circuit (up to the code's own 1e-18 regularisers, made explicit). Hence residuals are identically zero provided the solver returns the (unique) exact solution - that proviso, floating point, and CNLS convergence are assumptions / bounded.",
+    level_note="numpy.linalg lstsq/pinv/inv assumed to return the exact least-squares solution (full column rank); real arithmetic; series/parallel composition law imported from C01; two RC elements as representative width (columns are generated by one loop body); CNLS only bounded",
+    explanation="Obligations O1/O2/O3 per variant, pointwise in omega, as polynomial identities of complex rational functions (ring-normaliser, z3 for the rest); time-constant endpoints with log10/pow10 axioms. Bounded: generated model spectra through perform_kramers_kronig_test with frozen thresholds.",
+    trusted_base=["pyvc/overload.py: pointwise model of numpy slicing (row halves), zeros, array_sum (Sigma rule)", "pyvc/ring.py exact polynomial normaliser", "solver stubs return the vectors named in the lemma"],
+    assumptions=COMMON_ASSUME + ["lstsq/pinv/inv return the exact solution when one exists and the design matrix has full column rank", "generic point: values compared with 0.0 in _update_circuit are non-zero unless the lemma says otherwise"],
+    abstracted=["argument-type validation prologue of _test_wrapper (isinstance checks evaluated on the concrete stand-ins)"],
+)
+
+META["C08"] = dict(
+    level="proof",
+    technique="contracts on the real residual/chi-square functions (pointwise algebra, executed on symbolic values) and data-flow (EUF) contracts on result-assembly sites: the real entry point is run by CPython on uninterpreted terms with contract stubs for its numerical callees, all oracle-decided branches enumerated; z3 decides the term equalities; entry-point sweep as labelled bounded stand-in",
+    level_text="Proved for all inputs: residual = (Z_exp-Z_fit)/|Z_exp| and the chi-square summand = |residual|^2 for the real utility functions; for perform_zhit on every path, the result's frequencies are data.get_frequencies(), residuals are computed from data.get_impedances() and the reported impedances, and pseudo_chisqr is the chi-square of those same arrays (given the proved contract of _adjust_offset). The other entry points (KK, DRT, fit) and masked-point independence are bounded only.",
+    level_note="opaque numerical callees assumed pure/deterministic; Sigma rule for numpy.sum; floats as reals; only perform_zhit's assembly is under a data-flow contract so far",
+    explanation="Obligations: algebra lemmas on analysis/utility.py and kramers_kronig/utility.py; EUF obligations at the ZHITResult constructor call for both representations and both signs of min Re(Y); contract of zhit/offset.py:_adjust_offset. Bounded: all entry points x options x masked/planted data.",
+    trusted_base=["contracts/dataflow.py term model of Python operators (three algebraic axioms: x**1=x, (x**-1)**-1=x, x-0.0=x)"],
+    assumptions=COMMON_ASSUME + ["opaque callees are pure and deterministic"],
+    abstracted=["argument validation prologue of perform_zhit (type predicates evaluate to True on terms)"],
+)
+META["C09"] = dict(
+    level="other",
+    technique="equivariance lemmas as postconditions on the real Kramers-Kronig building blocks (residuals, chi-square, weights, b-vector, every A-matrix column of both implementations) executed on symbolic values and discharged by the ring normaliser / z3; whole-test invariance through lstsq/pinv is a labelled bounded stand-in",
+    level_text="Proved for all c>0, omega, tau, Z: residuals and chi-square are invariant under Z->cZ; the weights scale by c^-2 (c^2 for admittance); b scales by c (1/c); under f->cf with tau->tau/c every design-matrix column scales by its stated power of c. That the solver output then rescales accordingly is exact-arithmetic linear algebra which is assumed, and is exactly where the recorded numerical finding (rank truncation for |log10 c|>=4 with C/L columns) lives; the end-to-end statement is therefore bounded.",
+    level_note="lstsq/pinv equivariance assumed (exact arithmetic, full column rank); real arithmetic",
+    explanation="Lemma obligations per building block and per (implementation, test, representation); bounded: perform_kramers_kronig_test under Z-scaling, f-scaling and reversal with frozen tolerances.",
+    trusted_base=["pyvc/overload.py pointwise matrix model", "pyvc/ring.py"],
+    assumptions=COMMON_ASSUME + ["numpy.linalg.lstsq / pinv are equivariant under row/column scaling (true in exact arithmetic; violated numerically by rcond truncation - known finding)"],
+)
+META["C11"] = dict(
+    level="other",
+    technique="contracts on the real Z-HIT arithmetic (_reconstruct under an assumed quadrature contract, _offset_residual, _adjust_offset) executed on symbolic values / uninterpreted terms and discharged by z3; interpolators, smoothers, quad and lmfit are labelled bounded stand-ins",
+    level_text="Proved: _reconstruct returns 2/pi*Integral + (-pi/6)*Derivative in both representations, hence (2 phi/pi)(ln w - ln w_s) for constant phase; the offset residual vanishes identically at zero weight and is invariant under a common shift ln c (scaling clause); _adjust_offset builds X_fit and its chi-square from the same arrays. Accuracy of interpolation/quadrature/smoothing filters and the lmfit offset fit are bounded.",
+    level_note="quad/derivative contracts assumed; lmfit returns the minimiser; smoothing kernels and window functions only bounded",
+    explanation="Lemma obligations on analysis/zhit/{reconstruction,offset}.py; bounded: constant-phase elements and ladders x smoothing x interpolation x representation with frozen thresholds.",
+    trusted_base=["pyvc/overload.py", "contracts/dataflow.py"],
+    assumptions=COMMON_ASSUME + ["scipy.integrate.quad returns the integral; interpolator.derivative(1) is its derivative", "lmfit.minimize returns the weighted least-squares offset"],
+)
+META["C13"] = dict(
+    level="other",
+    technique="kernel identities as postconditions on the real DRT functions (TR-NNLS matrix/model/normalisation, Loewner peak extraction, m(RQ)fit closed forms) executed on symbolic values and discharged by the ring normaliser / z3; areas, peak positions and solver behaviour are labelled bounded stand-ins",
+    level_text="Proved for all omega, tau: the TR-NNLS matrix entry is dlntau*Re (resp. -Im) of the Debye kernel and is invariant under (c w, tau/c); the model impedance uses the same kernel times R_pol (+R_inf); normalisation gives R_pol(cZ)=c R_pol(Z) with Z_norm unchanged, so gamma=g*R_pol scales with c and is >=0 when nnls>=0; a Loewner pole -1/tau_k with residue R_k/tau_k is reported as (tau_k, R_k); the m(RQ)fit distribution is the documented closed form. Integrals over ln tau and peak positions are numerical and bounded.",
+    level_note="nnls >= 0, eig/solve assumed; Sigma rule; calculus facts (areas) only bounded",
+    explanation="Lemma obligations on analysis/drt/{tr_nnls,lm,mrq_fit}.py; bounded: RC/RQ ladders through calculate_drt with frozen thresholds.",
+    trusted_base=["pyvc/overload.py", "pyvc/ring.py"],
+    assumptions=COMMON_ASSUME + ["scipy.optimize.nnls returns a non-negative solution", "scipy.linalg.eig / solve return the eigen-decomposition"],
+)
+
 NOT_BUILT = "check not built yet in this session (planned, see DESIGN.md section 3)"
 NOT_APPLICABLE = {
     "C10": "statistical calibration over an RNG distribution and heuristic optimisers: no pre/postcondition within reach of a deductive verifier implies it (DESIGN.md C10); sampling would be a different technique family",
@@ -74,4 +123,4 @@ for _p in ["C%02d" % i for i in range(1, 21)]:
     if _p not in META and _p not in NOT_APPLICABLE:
         NOT_APPLICABLE[_p] = NOT_BUILT
 
-FIX_COMMITS = ["0098309", "82df5c9", "ded46ec", "756923f", "8a458bc", "a72c860"]
+FIX_COMMITS = ["0098309", "82df5c9", "ded46ec", "756923f", "8a458bc", "a72c860", "b452482", "d151f47"]
